@@ -57,6 +57,11 @@
 (*    that variant is NOT what is specified here.                           *)
 (*  - minimum lengths: 256 (50 with force), the rule of the releases that    *)
 (*    have a `force` option (4.x: 50, or 256 if "conservative").             *)
+(*                                                                         *)
+(* Self-tests: selftest/ST_Tlsh.tla (kat/tlsh.ndjson) and ST_TlshThm.tla.    *)
+(* Cost in TLC (one worker, warm): about 0.1 ms per input byte with window   *)
+(* 5 (6 triplets), 0.3 ms with window 8 (21 triplets); TlshFinal and         *)
+(* TlshDiff are a few ms.                                                   *)
 (***************************************************************************)
 EXTENDS Words, FiniteSets
 
@@ -132,12 +137,16 @@ TlshStep(cfg, st, b) ==
            chk |-> TlshChkR(st.chk, win[w], win[w-1], 1, <<>>),
            bkt |-> TlshBump(st.bkt, TlshTriplets(w), win, w, 1)]
 
-RECURSIVE TlshUpdR(_,_,_,_)
-TlshUpdR(cfg, st, bs, i) ==
-  IF i > Len(bs) THEN st
-  ELSE LET s2 == TlshStep(cfg, st, bs[i])
-       IN IF s2.len > 0 THEN TlshUpdR(cfg, s2, bs, i + 1) ELSE s2     \* (the test only forces evaluation)
-TlshUpdate(cfg, st, bytes) == TlshUpdR(cfg, st, bytes, 1)
+\* bytes bs[lo..hi] in order, by halving: the recursion depth stays logarithmic (TLC does not eliminate tail
+\* calls, and a Java stack that is thousands of frames deep makes every garbage collection slow)
+RECURSIVE TlshUpdR(_,_,_,_,_)
+TlshUpdR(cfg, st, bs, lo, hi) ==
+  IF lo > hi THEN st
+  ELSE IF lo = hi THEN TlshStep(cfg, st, bs[lo])
+  ELSE LET mid == (lo + hi) \div 2
+           s2 == TlshUpdR(cfg, st, bs, lo, mid)
+       IN IF s2.len > 0 THEN TlshUpdR(cfg, s2, bs, mid + 1, hi) ELSE s2     \* (the test only forces evaluation)
+TlshUpdate(cfg, st, bytes) == TlshUpdR(cfg, st, bytes, 1, Len(bytes))
 
 \* ---- L value -----------------------------------------------------------------
 \* generated by tools/gen_tlsh_consts.py: TlshLThresh[k] = least length with L value >= k (lengths < 2^31)
